@@ -26,6 +26,7 @@ Flow level (children of one composite are numbers, an emitting channel is 4*node
   pre <sig> <node>                              child's all-of trigger heard this emitter before the run (stale memory)
   owner <i> <0|1>   macro <m>   mstarters <i> …   two composites: children of the macro child m of the workflow
   run2 <fuel> <steps>                           the workflow with its hand-wired macro child (two queues)
+  replace <i>   pull <i>   ddisc <i> <slot> <src>    edits between wiring and running (Model Part E)
   roundtrip                                     state round trip of the composite (connections stored as strings and re-made)
   quiet <i>                                     the wrapped function of child i is not instrumented: leave it out of `calls`
   run <fuel>                                    prints the observations of one composite run
@@ -49,6 +50,7 @@ structure St where
   quiet : List Nat
   rec0 : Nat → List Label
   last : Option (S Store)      -- how the previous run of this composite ended
+  store0 : Store               -- what edits before the first run (a pull) have done to the children
   owner : Nat → Nat            -- two composites: 0 = child of the workflow, 1 = child of its macro child
   macroNode : Nat
   mStarters : List Nat
@@ -57,7 +59,7 @@ def init : St :=
   { lab := id, acc := { conns := [], received := [] }, anyc := [],
     n := 0, kinds := fun _ => .term 0, cache := fun _ => false, failAt := fun _ => [],
     slots := fun _ => [], w := Wiring.empty, starters := [], quiet := [],
-    rec0 := fun _ => [], last := none, owner := fun _ => 0, macroNode := 0, mStarters := [] }
+    rec0 := fun _ => [], last := none, store0 := Store.init, owner := fun _ => 0, macroNode := 0, mStarters := [] }
 
 def insertSorted (x : Nat) : List Nat → List Nat
   | [] => [x]
@@ -336,6 +338,39 @@ def step (s : St) (ws : List String) : St × List String :=
             "rec " ++ joinOrDash ((ids.filter fun i => !(s.w.accIn i).isEmpty).map fun i =>
               s!"{i}:{showNats (sortNats (r.mem i))}") ])
     | _, _ => (s, ["bad-op"])
+  | ["replace", i] =>
+    -- `replace_child(i, fresh node of the same class)`: the transcribed re-seating (forth to a fresh object, and — only to
+    -- keep the numbering — back), the replacement is not failed and has no cache, a replaced starting node goes last
+    match i.toNat? with
+    | some i =>
+      if i < s.n then
+        let w' := (s.w.replace false i s.n).replace false s.n i
+        let f : Store → Store := fun st => { st with failed := updF st.failed i false, cached := updF st.cached i none }
+        let s1 := match s.last with
+          | some p => { s with last := some { p with store := f p.store } }
+          | none => { s with store0 := f s.store0 }
+        ({ s1 with w := w', starters := if s.starters.contains i then s.starters.erase i ++ [i] else s.starters }, [])
+      else (s, ["bad-op"])
+    | none => (s, ["bad-op"])
+  | ["pull", i] =>
+    -- `child.pull()` of a child without upstream data: it runs (no emission); the temporary wiring is undone
+    match i.toNat? with
+    | some i =>
+      if i < s.n then
+        let f : Store → Store := fun st => pullNode s.nodes st i
+        let s1 := match s.last with
+          | some p => { s with last := some { p with store := f p.store } }
+          | none => { s with store0 := f s.store0 }
+        ({ s1 with w := s.w.pull true [i] }, [])
+      else (s, ["bad-op"])
+    | none => (s, ["bad-op"])
+  | ["ddisc", i, k, src] =>
+    match i.toNat?, k.toNat?, src.toNat? with
+    | some i, some k, some src =>
+      if i < s.n && src < s.n && k < (s.slots i).length then
+        ({ s with slots := updF s.slots i (modifyNth (s.slots i) k fun sl => { sl with conns := sl.conns.erase src }) }, [])
+      else (s, ["bad-op"])
+    | _, _, _ => (s, ["bad-op"])
   | ["roundtrip"] =>
     -- the composite goes through __getstate__ / __setstate__ (pickle, save + load): connections re-made from the stored lists
     let ids := List.range s.n
@@ -352,7 +387,7 @@ def step (s : St) (ws : List String) : St × List String :=
   | ["run", fuel] =>
     match fuel.toNat? with
     | some fuel =>
-      let r := runFrom s fuel (S.init Store.init s.rec0)
+      let r := runFrom s fuel (S.init { s.store0 with callLog := [], execLog := [], doneLog := [] } s.rec0)
       ({ s with last := some r }, runObs s r)
     | none => (s, ["bad-op"])
   | "rerun" :: fuel :: healed =>
